@@ -197,6 +197,8 @@ Proof.
   (* the two shapes the layout admits *)
   all: match goal with |- context [map ufrag_of [FG _; FV _; FV _]] => idtac | _ => shelve end.
   split_group.
+  Time all: try match goal with |- _ = 2%nat => solve [crunchA; reflexivity] end.
+  Time (kinds; kinds; kinds; rewrite ?in_alpha_fi; unfold member_by; crunchA; try reflexivity; try apply argon2_finish).
   Show.
 Abort.
 End A.
